@@ -243,6 +243,10 @@ def run(ck: core.Check):
             oc = "ok" if got[0] == "ok" else got[1]
             stats["outcomes"][oc] = stats["outcomes"].get(oc, 0) + 1
             exp = lf.expected(prog, req)
+            if len({i for _, i in req["outputs"]}) < len(req["outputs"]):
+                stats["repeated_output_var"] = stats.get("repeated_output_var", 0) + 1
+            if {i for _, i in req["outputs"]} & {i for _, i in req["inputs"]}:
+                stats["var_both_input_and_output"] = stats.get("var_both_input_and_output", 0) + 1
             if exp and exp[0] == "ok":
                 if with_values:
                     stats["value_checks"] += 1
